@@ -128,3 +128,68 @@ def run_impl(c, host_patch=None):
 
 def impl_fn(c):
     return run_impl(c)
+
+
+# ------------------------------------------------------------------------------------------------
+# correspondence section shared by C07/C09/C10/C17/C18: every generated decoder, Lean render vs str(trace)
+
+def supported_names():
+    st = stats()
+    return [n for n in all_handler_names() if n not in st['unsupported']]
+
+
+def section_decoders(rep, rng, tier, per=None, names=None, oracle_fn=None, name='decoders'):
+    names = supported_names() if names is None else names
+    per = per or (4 if tier == 'quick' else 60)
+    cases = [make_case(rng, n) for n in names for _ in range(per)]
+    core.run_section(
+        rep, name, cases, line_fn=line, impl_fn=impl_fn, oracle_fn=oracle_fn,
+        nontrivial_fn=lambda c, got: got.startswith('ok'),
+        kind_fn=lambda c, got: 'rendered' if got.startswith('ok') else got,
+        rule='every translated decoder (%d) x %d windows: START/END words from boundary values, small ints, random 16/32/64-bit '
+             'words; error word 0 / errno / arbitrary; 0-6 kernel-encoded lookups; random global strings; the Lean `IR.render` '
+             'of the generated IR vs str(handler(parser, events)) of the real code; non-trivial = rendered without exception'
+             % (len(names), per),
+        sample_fn=lambda c: {'decoder': c['name'], 'start': c['start'], 'end': c['end'], 'lookups': c['lookups'][:2]})
+    st = stats()
+    rep.notes.append('translator: %d of %d registered handlers compiled to IR (%d with name(p0, ...) shape); hand-modelled: %s'
+                     % (st['supported'], st['total'], st.get('shaped', 0), sorted(st['unsupported'])))
+
+
+def text_of(ans):
+    if ans.startswith('ok '):
+        h = ans[3:]
+        return '' if h == '-' else bytes.fromhex(h).decode('utf-8', 'surrogatepass')
+    return None
+
+
+def split_call(text):
+    """'name(p0, p1, ...)tail' -> (name, [params], tail) or None; quotes protect their content."""
+    i = text.find('(')
+    if i < 0:
+        return None
+    depth, params, cur, inq = 1, [], '', False
+    j = i + 1
+    while j < len(text):
+        ch = text[j]
+        if ch == '"':
+            inq = not inq
+        if not inq:
+            if ch == '(':
+                depth += 1
+            elif ch == ')':
+                depth -= 1
+                if depth == 0:
+                    break
+            elif ch == ',' and depth == 1 and text[j + 1:j + 2] == ' ':
+                params.append(cur)
+                cur = ''
+                j += 2
+                continue
+        cur += ch
+        j += 1
+    if depth != 0:
+        return None
+    if cur or params:
+        params.append(cur)
+    return text[:i], params, text[j + 1:]
